@@ -74,6 +74,8 @@ package discovery
 //@   property C20
 //@   safety
 //@   requires c != nil && c.httpClient != nil && endpoint != nil && platformProfile != nil
+// C20 (oversized listings): the body of a listing is only ever read through a size-capped reader
+//@   at call ReadAll 1 assert ghost(limitedReader).limited
 //@   modifies ghost remaining, ghost backing
 //@   ensures res1 == nil ==> namedModels(res0)
 //@   ensures res1 != nil ==> len(res0) == 0
